@@ -6,7 +6,7 @@ use arrow_array::cast::AsArray;
 use arrow_array::types::*;
 use arrow_array::*;
 use arrow_buffer::{BooleanBuffer, Buffer, IntervalDayTime, NullBuffer, OffsetBuffer, ScalarBuffer, i256};
-use arrow_schema::{DataType, Field, FieldRef, IntervalUnit, TimeUnit};
+use arrow_schema::{DataType, FieldRef, IntervalUnit, TimeUnit};
 use std::sync::Arc;
 use vcore::serde_json::{Value, json};
 
@@ -94,24 +94,6 @@ pub enum Lay {
     /// unmerged runs, list-views with children in reverse order
     Garbage,
 }
-pub const LAYS: [Lay; 3] = [Lay::Compact, Lay::Sliced, Lay::Garbage];
-impl Lay {
-    pub fn name(&self) -> &'static str {
-        match self {
-            Lay::Compact => "compact",
-            Lay::Sliced => "sliced",
-            Lay::Garbage => "garbage",
-        }
-    }
-    pub fn parse(s: &str) -> Lay {
-        match s {
-            "sliced" => Lay::Sliced,
-            "garbage" => Lay::Garbage,
-            _ => Lay::Compact,
-        }
-    }
-}
-
 /// some non-null value of the type (used as junk under nulls and as padding rows)
 pub fn junk(dt: &DataType) -> Val {
     match dt {
@@ -710,6 +692,3 @@ pub fn extract(a: &dyn Array) -> Vec<Val> {
     }
 }
 
-pub fn field(name: &str, dt: DataType, nullable: bool) -> Field {
-    Field::new(name, dt, nullable)
-}
